@@ -10,16 +10,25 @@ C06 — Serde formats round-trip protocol types and consensus parameters.
 Proved here (for the model): (1) the two binary formats are invertible on every well-typed serde
 tree (any nesting, any sizes); (2) the hand-written two-layout `Policies` serde round-trips for every
 bit mask and every value array reachable through the API, through both visitor entry points, and the
-three places that choose the layout agree; (3) the upgrade checksum/decoding logic.
-NOT modelled (exercised by the harness oracle only): serde_json's text layer, the derive-generated
-`Deserialize` impls (that they request the shape their `Serialize` produced), bitflags' text format.
+three places that choose the layout agree; (3) the upgrade checksum/decoding logic; (4) the binary round
+trip instantiated at the shape of EVERY real type reachable from Transaction, Receipt, Input, Output,
+Policies, ConsensusParameters, GasCosts — the shapes are regenerated from the Rust sources
+(`Gen/SerdeShapes.lean`, tools/gen/serde_shapes.py) and proved well formed, closed and inhabited;
+(5) `Policies` end to end: bytes → decoder with the generated layout-dependent shape → `visit_seq` → value;
+(6) `Policies` through serde_json at the level of the JSON object (bitflags text format, field order,
+duplicates, missing/unknown fields).
+The generated shapes and the model decoders are validated against the real crates on every run (driver
+`tree`/`de` requests: generated shape of every recorded tree, decoders on real and malformed bytes).
+NOT modelled (exercised by the harness oracle only): serde_json's text layer and the JSON form of the
+derive-generated types; the hex form of unknown bits in the bitflags text is tied by correspondence only.
 -/
 import FuelVerif.Lemmas.SerdeTree
 import FuelVerif.Lemmas.PoliciesSerde
 import FuelVerif.Lemmas.SerdeCheck
 import FuelVerif.Lemmas.PoliciesWire
+import FuelVerif.Lemmas.PoliciesJson
 namespace FuelVerif.C06
-open FuelVerif.Serde FuelVerif.PoliciesSerde FuelVerif.Gen.Policies FuelVerif.Gen.SerdeShapes
+open FuelVerif.Serde FuelVerif.PoliciesSerde FuelVerif.Gen.Policies FuelVerif.Gen.SerdeShapes FuelVerif.PoliciesJson
 
 /-! ### (1) binary formats -/
 
@@ -305,6 +314,72 @@ theorem policies_wire_image_stable (dec : Shape → Bytes → Option (Tree × By
       exact deSeq_image_stable t q hd
   · simp at h
 
+/-! ### (6) Policies through serde_json (`visit_map`; bitflags text format) -/
+
+/-- the bitflags text format round-trips for all 64 masks of defined flags ("Tip | MaxFee" ...; complete
+table, `decide +kernel`) -/
+theorem policies_bits_text_roundtrip (b : Nat) (h : b < 64) : charsToBits (bitsToChars b) = some b :=
+  bits_text_roundtrip b h
+
+/-- **`serde_json::from_str::<Policies>(serde_json::to_string(&p)) == p`** at the level of the JSON object
+(fields in document order, `bits` as bitflags text, `values` as an array of numbers), for all 64 masks and
+every stable value array -/
+theorem policies_json_roundtrip (p : Policies) (h : Stable p) (hb : p.bits < 64)
+    (hv : ∀ v ∈ p.values, v < 2 ^ 64) : deJson (serJson p) = .ok p := by
+  have hseq := policies_serde_roundtrip_seq p h
+  rw [ser_eq] at hseq
+  have hm : legacyMaskMap = legacyMaskSeq := by decide
+  have hm' : legacyMaskSer = legacyMaskSeq := by decide
+  simp only [deSeq] at hseq
+  have hnums : numsOf ((if isLegacy legacyMaskSer p.bits = true then p.values.take 4
+      else gather p.bits p.values flagBits).map JElem.num) =
+      some (if isLegacy legacyMaskSer p.bits = true then p.values.take 4 else gather p.bits p.values flagBits) := by
+    apply numsOf_map
+    intro v hv'
+    split at hv'
+    · exact hv v (List.mem_of_mem_take hv')
+    · exact hv v (gather_mem _ _ _ v hv')
+  have htree : (if isLegacy legacyMaskSeq p.bits = true then
+        Tree.tuple ((if isLegacy legacyMaskSer p.bits = true then p.values.take 4
+          else gather p.bits p.values flagBits).map Tree.u64)
+      else Tree.seq ((if isLegacy legacyMaskSer p.bits = true then p.values.take 4
+          else gather p.bits p.values flagBits).map Tree.u64)) = valuesTree p := by
+    unfold valuesTree
+    rw [hm']
+    split <;> rfl
+  cases hd : decodeValues legacyMaskSeq p.bits (valuesTree p) .wrongType with
+  | error e => simp [hd] at hseq
+  | ok vals =>
+    simp only [hd, Except.ok.injEq] at hseq
+    simp only [deJson, serJson, deJsonAux, policies_bits_text_roundtrip p.bits hb, decodeValuesJson, hnums, hm,
+      htree, hd]
+    simpa using hseq
+
+/-- an object whose `values` field comes before `bits` is rejected, whatever the fields contain -/
+theorem json_values_before_bits_rejected (v : JVal) (rest : List (String × JVal)) :
+    deJson (("values", v) :: rest) = .error .bitsBeforeValues := by
+  simp [deJson, deJsonAux]
+
+/-- duplicate fields are rejected -/
+theorem json_duplicate_rejected (cs : List Char) (b : Nat) (hb : charsToBits cs = some b) (v v' w : JVal)
+    (vals : List Nat) (hvals : decodeValuesJson legacyMaskMap b v = .ok vals) (rest : List (String × JVal)) :
+    deJson (("bits", .str cs) :: ("bits", w) :: rest) = .error .duplicateBits ∧
+    deJson (("bits", .str cs) :: ("values", v) :: ("values", v') :: rest) = .error .duplicateValues := by
+  constructor
+  · simp [deJson, deJsonAux, hb]
+  · simp [deJson, deJsonAux, hb, hvals]
+
+/-- missing fields are rejected; unknown fields are skipped -/
+theorem json_missing_rejected (cs : List Char) (b : Nat) (hb : charsToBits cs = some b) :
+    deJson [] = .error .missingBits ∧ deJson [("bits", .str cs)] = .error .missingValues := by
+  constructor
+  · simp [deJson, deJsonAux]
+  · simp [deJson, deJsonAux, hb]
+
+theorem json_unknown_field_ignored (k : String) (hk : k ≠ "bits" ∧ k ≠ "values") (v : JVal)
+    (fields : List (String × JVal)) : deJson ((k, v) :: fields) = deJson fields := by
+  simp [deJson, deJsonAux, hk.1, hk.2]
+
 /-! ### non-vacuity -/
 example : Stable ⟨0b110101, [7, 0, 9, 0, 11, 13]⟩ := by
   apply canonical_stable; exact ⟨by decide, by simp [UnsetZero, flagBits, flags]; decide⟩
@@ -328,6 +403,13 @@ example : policiesToWire pcEnc ⟨0b100001, [7, 0, 0, 0, 0, 5]⟩ = [0x21, 0x02,
 -- a value count that does not match the bits is rejected by `visit_seq` although the bytes have the shape
 example : policiesFromWire pcDec [0x21, 0x01, 0x07] = none := by rfl
 example : (pcDec (shapeOf .TPolicies) [0x21, 0x01, 0x07]).isSome = true := by rfl
+-- JSON: text of the bits, the object, and a reordered object
+example : String.ofList (bitsToChars 0b101001) = "Tip | MaxFee | Owner" := by decide
+example : charsToBits " Tip|MaxFee | 0x+40 ".toList = some 73 := by decide
+example : charsToBits "Tip | ".toList = none := by decide
+example : deJson (serJson ⟨0b100001, [7, 0, 0, 0, 0, 5]⟩) = .ok ⟨0b100001, [7, 0, 0, 0, 0, 5]⟩ := by rfl
+example : deJson [("values", .arr [.num 1]), ("bits", .str "Owner".toList)] = .error .bitsBeforeValues := by rfl
+example : deJson [("bits", .str "Owner".toList), ("x", .other), ("values", .arr [.num 1])] = .ok ⟨32, [0, 0, 0, 0, 0, 1]⟩ := by rfl
 -- out-of-range variant index / bad option tag are rejected
 example : pcDec (shapeOf .TOutput) [0x05] = none := by rfl
 example : pcDec (.option .u8) [0x02, 0x00] = none := by rfl
